@@ -451,8 +451,11 @@ Inductive catverb := CGet | CSet | CCAS | CDelete | CDeleteCAS.
 Record checkreq := CheckReq { cr_node : string; cr_id : string; cr_status : N; cr_service : string;
                               cr_session_type : bool; cr_sessname : string; cr_output : N;
                               cr_index : N }.
+(* ensureCheckTxn: "if hc.Status == "" { hc.Status = api.HealthCritical }"; a request status of 3
+   stands for an omitted status *)
+Definition norm_status (n : N) : N := if bool_decide (n = 3) then critical else n.
 Definition check_of (c : checkreq) : check :=
-  Chk (cr_status c) (cr_service c) "" (cr_session_type c) (cr_sessname c) (OUser (cr_output c)) 0 0.
+  Chk (norm_status (cr_status c)) (cr_service c) "" (cr_session_type c) (cr_sessname c) (OUser (cr_output c)) 0 0.
 
 Inductive txnop :=
 | TKV (v : kvverb) (q : kvreq)
